@@ -158,6 +158,49 @@ def rules(rep, m):
             else:
                 r3.ok()
 
+    # R-C05-4 ------------------------------------------------------------
+    r4 = rep.rule("R-C05-4", "a holder that is evicted cannot act as holder any more: in the region that takes the resource from "
+                  "another process (its holdable tag is removed while it is not the caller), every pending wake-up of that "
+                  "process is withdrawn before the region ends, and a wake-up carrying the preempted signal is scheduled for "
+                  "it - otherwise a wake-up of its own that is due in the same instant resumes it with success and it goes "
+                  "on to release a resource that meanwhile belongs to the preemptor", floor=1)
+    pre = m.need("cmb_resource_preempt")
+    pcx = FuncCtx(m, pre)
+    evict = [c for c in walk(pre.body) if c["kind"] == "CallExpr" and callee_ref(c) == "cmi_process_remove_holdable"]
+    for c in evict:
+        vic = pcx.canon(kids(c)[1])
+        if vic == "cmb_process_current()":
+            continue
+        r4.instance("%s: evicts %s at %s" % (pre.name, vic, m.rel(loc(c))))
+        wd = common.synchronous_withdrawals(m, pre, pcx, vic)
+        cc = inv.dominating_conditions(pcx, pre, c)
+        okw = any(all(cd in cc for cd in inv.dominating_conditions(pcx, pre, w_)) for w_ in wd)
+        # notified: an event scheduled for the victim with the preempted signal, or an interrupt with it
+        notes = []
+        for y in walk(pre.body):
+            if y["kind"] != "CallExpr":
+                continue
+            a_ = [pcx.canon(z) for z in kids(y)[1:]]
+            if callee_ref(y) == "cmb_event_schedule" and len(a_) >= 3 and a_[1] == vic and common.sigval(a_[2]) == common.signal_table(m)["CMB_PROCESS_PREEMPTED"]:
+                notes.append(y)
+            if callee_ref(y) == "cmb_process_interrupt" and len(a_) >= 2 and a_[0] == vic and common.sigval(a_[1]) == common.signal_table(m)["CMB_PROCESS_PREEMPTED"]:
+                notes.append(y)
+        okn = any(all(cd in cc for cd in inv.dominating_conditions(pcx, pre, y)) for y in notes)
+        if not okw:
+            rep.finding(r4, pre.name, "evict:wakeups-left", "%s takes the resource from %s without withdrawing that process's pending "
+                        "wake-ups in the same region: a hold of the victim that ends in this very instant resumes it with success "
+                        "before the preempted signal arrives, and its release then frees the resource under the new holder"
+                        % (pre.name, vic), where=m.rel(loc(c)))
+            r4.fail()
+        else:
+            r4.ok()
+        if not okn:
+            rep.finding(r4, pre.name, "evict:not-notified", "%s takes the resource from %s without scheduling a wake-up with the "
+                        "preempted signal for it" % (pre.name, vic), where=m.rel(loc(c)))
+            r4.fail()
+        else:
+            r4.ok()
+
 
 def run(tier="quick"):
     models = common.load_models(tier)
